@@ -400,3 +400,11 @@ def rule_worker_loops(ctx):
 
 
 RULES.append(("C06.i", "run loops stop only when the worker's queues are empty (a worker that parks while holding runnable tasks makes the pool look idle: spurious Deadlock)", rule_worker_loops))
+
+
+def rule_mustpass(ctx):
+    from . import mustpass
+    mustpass.check(ctx, ['add-model-registers', 'mt-run-returns-only-idle'])
+
+
+RULES.append(("C06.j", "must-pass-through: no path around the effects this property rests on (added fast paths / early returns)", rule_mustpass))
